@@ -43,6 +43,12 @@ def history(rng, tier):
             lines.append('%s %s %s %s %d' % ('da_rdd' if rng.random() < 0.15 else 'da_rd', rdt, A.idx(cnt), A.idx(off), A.prod(cnt)))
         elif r < 0.62:
             lines.append('da_rd %s %s %s %d' % (dt if not calibrated else 'Double', A.idx(shape), A.idx([0] * rank), A.prod(shape)))
+            # an offset without a count: the one element there (raw interface)
+            o1 = [rng.randrange(0, max(1, n_)) for n_ in shape]
+            lines.append('da_rd %s [] %s 1' % (dt if not calibrated else 'Double', A.idx(o1)))
+            if not readonly and rng.random() < 0.5:
+                lines.append('da_wr %s [] %s %s' % (dt, A.idx(o1), lst([val()])))
+                lines.append('da_rd %s [] %s 1' % (dt if not calibrated else 'Double', A.idx(o1)))
             # … and the typed transfers of one value / of a vector the library sizes itself
             if not calibrated or dt in ('Double', 'Float', 'Int32', 'Int64'):
                 lines.append(A.typed_op(rng, 'da', dt, shape, readonly=readonly or dt == 'String' and False, val=val if dt == 'String' else None))
